@@ -50,6 +50,9 @@ pub enum Frame {
     Null,
 }
 
+/// Arrays nested deeper than this are rejected, the parser recurses once per level.
+const MAX_NESTING_DEPTH: usize = 128;
+
 impl Frame {
     /// Try to read data of a frame from the given reader.
     ///
@@ -59,6 +62,13 @@ impl Frame {
     ///
     /// [`FrameError::Incomplete`]: crate::resp::frame::Error::Incomplete
     pub fn parse(reader: &mut Cursor<&[u8]>) -> Result<Self, Error> {
+        Self::parse_nested(reader, 0)
+    }
+
+    fn parse_nested(reader: &mut Cursor<&[u8]>, depth: usize) -> Result<Self, Error> {
+        if depth > MAX_NESTING_DEPTH {
+            return Err(Error::BadEncoding);
+        }
         match get_byte(reader)? {
             b'+' => {
                 let l = get_line(reader)?;
@@ -101,9 +111,10 @@ impl Frame {
                 let len = get_integer(reader)?;
                 let len = len.try_into().map_err(|_| Error::BadEncoding)?;
                 // Recursively parse each element of the array
-                let mut items = Vec::with_capacity(len);
+                // Every element takes at least one byte, do not trust the length for allocation
+                let mut items = Vec::with_capacity(usize::min(len, reader.remaining()));
                 for _ in 0..len {
-                    items.push(Frame::parse(reader)?);
+                    items.push(Frame::parse_nested(reader, depth + 1)?);
                 }
                 Ok(Frame::Array(items))
             }
@@ -113,6 +124,13 @@ impl Frame {
 
     /// Checks if a message frame can be parsed from the reader without memory allocations.
     pub fn check(buf: &mut Cursor<&[u8]>) -> Result<(), Error> {
+        Self::check_nested(buf, 0)
+    }
+
+    fn check_nested(buf: &mut Cursor<&[u8]>, depth: usize) -> Result<(), Error> {
+        if depth > MAX_NESTING_DEPTH {
+            return Err(Error::BadEncoding);
+        }
         match get_byte(buf)? {
             b'+' => {
                 get_line(buf)?;
@@ -137,7 +155,7 @@ impl Frame {
             b'*' => {
                 let n = get_integer(buf)?;
                 for _ in 0..n {
-                    Frame::check(buf)?;
+                    Frame::check_nested(buf, depth + 1)?;
                 }
             }
             _ => return Err(Error::BadEncoding),
@@ -182,8 +200,8 @@ fn get_integer(buf: &mut Cursor<&[u8]>) -> Result<i64, Error> {
 
     // i64 has at most 19 digits, so we parse the first 18 digits using unchecked arithmetic
     // and parse the last few digits using checked arithmetic
-    let max_safe_digits = 18;
     let start = buf.position() as usize;
+    let max_safe_digits = start + 18;
     let end = buf.get_ref().len() - 1;
 
     let mut idx = start;
@@ -192,7 +210,7 @@ fn get_integer(buf: &mut Cursor<&[u8]>) -> Result<i64, Error> {
     // using if clause improves performance over multiplying with the sign value
     let num = if is_positive {
         // parse unchecked
-        while idx != end && idx != max_safe_digits {
+        while idx < end && idx != max_safe_digits {
             match ascii_to_i64(buf.get_ref()[idx]) {
                 Some(n) => num = num * 10 + n,
                 None => break,
@@ -201,7 +219,7 @@ fn get_integer(buf: &mut Cursor<&[u8]>) -> Result<i64, Error> {
         }
         // parse checked
         let mut num = Some(num);
-        while idx != end {
+        while idx < end {
             match ascii_to_i64(buf.get_ref()[idx]) {
                 Some(n) => {
                     num = num
@@ -215,7 +233,7 @@ fn get_integer(buf: &mut Cursor<&[u8]>) -> Result<i64, Error> {
         num
     } else {
         // parse unchecked
-        while idx != end && idx != max_safe_digits {
+        while idx < end && idx != max_safe_digits {
             match ascii_to_i64(buf.get_ref()[idx]) {
                 Some(n) => num = num * 10 - n,
                 None => break,
@@ -224,7 +242,7 @@ fn get_integer(buf: &mut Cursor<&[u8]>) -> Result<i64, Error> {
         }
         // parse checked
         let mut num = Some(num);
-        while idx != end {
+        while idx < end {
             match ascii_to_i64(buf.get_ref()[idx]) {
                 Some(n) => {
                     num = num
@@ -238,7 +256,7 @@ fn get_integer(buf: &mut Cursor<&[u8]>) -> Result<i64, Error> {
         num
     };
 
-    if idx == end {
+    if idx >= end {
         return Err(Error::Incomplete);
     }
     if idx == start || buf.get_ref()[idx] != b'\r' {
